@@ -25,6 +25,8 @@ def is_leaf_spec(ts):
 
 def fiber_from_spec(ts, default=0, shape=None, level=0, **kwargs):
     """Build a (free) fiber tree from a tree spec through the public constructor."""
+    if isinstance(shape, int):
+        shape = [shape]
     coords = [tup(c) for c, _ in ts]
     payloads = []
     for _, p in ts:
